@@ -20,7 +20,7 @@ func VerifC04Verdict() {
 	vTimerMode(0)
 	authority, blocks, z := gScenario()
 	g := gBuildToken(authority, blocks)
-	a, err := NewVerifier(g.tok)
+	a, err := NewVerifier(g.tok, gPatient)
 	vAssert(err == nil, "C04.verifier")
 	if err != nil {
 		return
